@@ -95,14 +95,26 @@ From LV Require Import Base.Conc Base.Events Model.Ring.
 Import ListNotations.
 Local Open Scope Z_scope.
 
-Record GV := mkGV { v_front : Z; v_back : Z; v_mem : Z -> Z }.
+(** shared state.  [v_fails] and [v_wbad] are GHOST fields: no operation reads them.
+    [v_fails]: one entry (front_, back_, size) per failing back( size ), recorded by the very access that
+    decided the failure (the true counters at that instant).
+    [v_wbad]: set by a buffer write that lands outside the buffer or on a byte of [front_, back_) (published and
+    not yet released by the consumer). *)
+Record GV := mkGV { v_front : Z; v_back : Z; v_mem : Z -> Z; v_fails : list (Z * Z * Z); v_wbad : bool }.
 
 Definition progv := Conc.prog GV V ev.
 
-Definition setv_front (g : GV) (v : Z) : GV := mkGV v (v_back g) (v_mem g).
-Definition setv_back (g : GV) (v : Z) : GV := mkGV (v_front g) v (v_mem g).
-Definition setv_byte (g : GV) (i v : Z) : GV :=
-  mkGV (v_front g) (v_back g) (fun j => if Z.eqb j i then v else v_mem g j).
+Definition setv_front (g : GV) (v : Z) : GV := mkGV v (v_back g) (v_mem g) (v_fails g) (v_wbad g).
+Definition setv_back (g : GV) (v : Z) : GV := mkGV (v_front g) v (v_mem g) (v_fails g) (v_wbad g).
+Definition log_fail (g : GV) (size : Z) : GV :=
+  mkGV (v_front g) (v_back g) (v_mem g) ((v_front g, v_back g, size) :: v_fails g) (v_wbad g).
+
+(** byte offset [i] holds a published, unreleased byte: some counter x in [f, b) has x mod cap = i *)
+Definition occupied (cap f b i : Z) : bool := Z.ltb ((i - f) mod cap) (b - f).
+
+Definition setv_byte (cap : Z) (g : GV) (i v : Z) : GV :=
+  mkGV (v_front g) (v_back g) (fun j => if Z.eqb j i then v else v_mem g j) (v_fails g)
+       (v_wbad g || negb (Z.leb 0 i && Z.ltb i cap) || occupied cap (v_front g) (v_back g) i).
 
 (** ** size arithmetic, as in the header *)
 Definition top_bit : Z := 2 ^ 63.
@@ -112,10 +124,10 @@ Definition make_tail (size : Z) : Z := Z.lor size top_bit.
 Definition untail (size : Z) : Z := Z.land size (top_bit - 1).
 
 (** ** plain memory accesses: size_t through a pointer = 8 bytes, little endian *)
-Fixpoint write_bytes (g : GV) (off : Z) (bs : list Z) : GV :=
+Fixpoint write_bytes (cap : Z) (g : GV) (off : Z) (bs : list Z) : GV :=
   match bs with
   | [] => g
-  | b :: r => write_bytes (setv_byte g off b) (off + 1) r
+  | b :: r => write_bytes cap (setv_byte cap g off b) (off + 1) r
   end.
 
 Fixpoint read_bytes (g : GV) (off : Z) (n : nat) : list Z :=
@@ -136,7 +148,7 @@ Fixpoint le_val (bs : list Z) : Z :=
   | b :: r => b + 256 * le_val r
   end.
 
-Definition write64 (g : GV) (off v : Z) : GV := write_bytes g off (le_bytes 8 v).
+Definition write64 (cap : Z) (g : GV) (off v : Z) : GV := write_bytes cap g off (le_bytes 8 v).
 Definition read64 (g : GV) (off : Z) : Z := le_val (read_bytes g off 8).
 
 Definition data_byte (seed i : Z) : Z := (seed + 3 * i) mod 256.
@@ -156,8 +168,8 @@ Definition post_space (exp2 : bool) (cap : Z) (g : GV) (back size seed : Z) : GV
   let rs := calc_real_size size in
   let off := idx exp2 cap back in
   let tail := u64 (cap - off) in
-  if Z.ltb tail rs then write64 g off (make_tail (u64 (tail - 8)))
-  else write_bytes (write64 g off size) (off + 8) (data_bytes size seed).
+  if Z.ltb tail rs then write64 cap g off (make_tail (u64 (tail - 8)))
+  else write_bytes cap (write64 cap g off size) (off + 8) (data_bytes size seed).
 
 Definition ev_vfail (size : Z) : ev := EvCli "vpush_fail" [size].
 
@@ -173,7 +185,7 @@ Definition av_back_ld_front1 (exp2 : bool) (cap back size seed : Z) : GV -> GV *
   fun g =>
     let pf := v_front g in
     if space_lt cap pf back (calc_real_size size) then
-      (g, (pf, []), [EvAcc KLd vobj_front true; ev_vfail size])
+      (log_fail g size, (pf, []), [EvAcc KLd vobj_front true; ev_vfail size])
     else (post_space exp2 cap g back size seed, (pf, []), [EvAcc KLd vobj_front true]).
 
 (** C *)
@@ -181,13 +193,13 @@ Definition av_back_ld_front2 (cap back' size : Z) : GV -> GV * V * list ev :=
   fun g =>
     let pf := v_front g in
     if space_lt cap pf back' (calc_real_size size) then
-      (g, (pf, []), [EvAcc KLd vobj_front true; ev_vfail size])
+      (log_fail g size, (pf, []), [EvAcc KLd vobj_front true; ev_vfail size])
     else (g, (pf, []), [EvAcc KLd vobj_front true]).
 
 (** D, then: reserved = buffer start; header; return; the client's fill *)
-Definition av_back_st_back (back' size seed : Z) : GV -> GV * V * list ev :=
+Definition av_back_st_back (cap back' size seed : Z) : GV -> GV * V * list ev :=
   fun g =>
-    (write_bytes (write64 (setv_back g back') 0 size) 8 (data_bytes size seed), (0, []),
+    (write_bytes cap (write64 cap (setv_back g back') 0 size) 8 (data_bytes size seed), (0, []),
      [EvAcc KSt vobj_back true]).
 
 (** E: push_back() reads the header of the reserved record *)
@@ -217,8 +229,8 @@ Definition after_space (exp2 : bool) (cap back pf size seed : Z) : progv Z :=
       Act (av_back_ld_front2 cap back' size) (fun r =>
         let pf' := fst r in
         if space_lt cap pf' back' rs then Ret pf'
-        else Act (av_back_st_back back' size seed) (fun _ => push_back_op exp2 cap size seed pf'))
-    else Act (av_back_st_back back' size seed) (fun _ => push_back_op exp2 cap size seed pf)
+        else Act (av_back_st_back cap back' size seed) (fun _ => push_back_op exp2 cap size seed pf'))
+    else Act (av_back_st_back cap back' size seed) (fun _ => push_back_op exp2 cap size seed pf)
   else push_back_op exp2 cap size seed pf.
 
 (** back( size ); fill; push_back(): result = new pfront_ *)
@@ -352,7 +364,7 @@ Definition vproducer (exp2 : bool) (cap : Z) (os : list vpop_) : Conc.thread GV 
 Definition vconsumer (exp2 : bool) (cap : Z) (os : list vcop) : Conc.thread GV V ev :=
   Act av_begin (fun _ => run_vcops exp2 cap 0 os).
 
-Definition vinit : GV := mkGV 0 0 (fun _ => 0).
+Definition vinit : GV := mkGV 0 0 (fun _ => 0) [] false.
 
 Definition vinit_cfg (exp2 : bool) (cap : Z) (pos : list vpop_) (cos : list vcop) : Conc.config GV V ev :=
   Conc.Cfg vinit [vproducer exp2 cap pos; vconsumer exp2 cap cos] [].
